@@ -52,7 +52,8 @@ ASSUMPTIONS = [
 PROBES = [
     "frame_not_dividing_read_two_reads", "truncate_in_first_read", "truncate_on_read_boundary", "truncate_mid_frame",
     "truncate_zero_data", "big_endian", "header_2048_plus", "raw_codes_requested", "g711_all_codes", "multi_read",
-    "bytesio", "fileobj", "suffix_inference", "magic_bytes_at_read_boundary", "frame_exceeds_read_size",
+    "bytesio", "fileobj", "suffix_inference", "magic_bytes_at_read_boundary", "frame_exceeds_read_size", "pipe",
+    "second_decode",
 ]
 FAULT_KINDS = ["truncate", "short_file", "bad_magic", "small_hdrsize"]
 EXHAUSTIVE = {}
@@ -86,7 +87,8 @@ def generate(rng, tier, k):
         "coding": coding, "order": order, "channels": ch, "n": n, "hdr_blocks": rng.choice((1, 1, 1, 2, 3, 4)),
         "order_seed": rng.randrange(1 << 20), "extra": rng.randrange(0, 6),
         "coding_field": True if coding != "pcm" else rng.random() < 0.6,
-        "seed": rng.randrange(1 << 30), "access": rng.choice(("path", "suffix", "fileobj", "bytesio", "bytesio")),
+        "seed": rng.randrange(1 << 30), "access": rng.choice(("path", "suffix", "fileobj", "bytesio", "bytesio", "pipe")),
+        "second": rng.random() < 0.2,
         "dtype_req": None, "fault": None, "rate": rng.choice((8000, 16000, 44100)),
     }
     if rng.random() < 0.08 and n * fb > READ + 8:
@@ -168,6 +170,24 @@ def build(scn):
     return hdr, body, expected, fb
 
 
+def _pipe_reader(data):
+    """A buffered reader on the read end of an OS pipe that a thread fills with `data`."""
+    import threading
+
+    r, w = os.pipe()
+
+    def feed():
+        try:
+            with os.fdopen(w, "wb") as f:
+                f.write(data)
+        except (BrokenPipeError, OSError):
+            pass
+
+    t = threading.Thread(target=feed, daemon=True)
+    t.start()
+    return os.fdopen(r, "rb"), t
+
+
 def execute(scn, keep_trace=False):
     res = Result()
     tr = Trace(keep_trace)
@@ -243,6 +263,12 @@ def execute(scn, keep_trace=False):
             res.probe("bytesio")
             src = io.BytesIO(data)
             kw["force_as"] = "sph"
+        elif access == "pipe":
+            # a non-seekable (but buffered, i.e. full reads until EOF) binary stream
+            res.probe("pipe")
+            src, pipe_thread = _pipe_reader(data)
+            fobj = src
+            kw["force_as"] = "sph"
         else:
             tmp = tempfile.mkdtemp(prefix="verif-c12-", dir=env.scratch_base())
             path = os.path.join(tmp, "utt.sph" if access == "suffix" else "utt.dat")
@@ -267,6 +293,20 @@ def execute(scn, keep_trace=False):
             except BaseException as e:  # noqa: B902 - the type is what is judged
                 exc = e
         nwarn = len(wlist)
+        # a later decode of another file must not change what this one returned
+        if scn.get("second") and isinstance(out, np.ndarray):
+            res.probe("second_decode")
+            keep = out.copy()
+            scn2 = dict(scn, n=max(1, int(scn["n"]) // 2), seed=int(scn["seed"]) ^ 0x1234, fault=None, all_codes=False,
+                        magic_at=None)
+            h2, b2, _, _ = build(scn2)
+            try:
+                _util.read_signal(io.BytesIO(h2 + b2), **dict(kw, force_as="sph"))
+            except Exception:
+                pass
+            if not np.array_equal(out, keep):
+                res.violate("RESULT_ALIASED", "the array returned for one file changed when another file was decoded",
+                            **facts)
     finally:
         if fobj is not None:
             fobj.close()
